@@ -1175,6 +1175,75 @@ example : let am : RBM ℝ 2 3 := ⟨fun i j => (i.val : ℝ) - j.val + 0.5, fun
       = (expectation psi (magnetOp pauliX)).re :=
   (C08_unbiased_stationary _ _ 4 1).2.1
 
+/-! #### (c) `absolute=True` (late theorem) -/
+
+/-- stationary expectation of the `absolute=True` values, any stationary kernel, any state: by `C08_real` the per-sample value
+is the pointwise `|·|` of the signed one, so this is `Prog.expect_stationary` with `f = |apply|` -/
+theorem absolute_stationary (p : Cfg n → ℝ) (prog : Cfg n → Prog ℝ (Cfg n))
+    (hinv : ∀ w, ∑ v, p v * (prog v).law w = p w) (S : ImpState ℝ n) :
+    (∑ v₀, p v₀ * (prog v₀).expect (fun σ => sigmaXApply S true σ) = ∑ σ, p σ * |sigmaXApply S false σ|)
+    ∧ (∑ v₀, p v₀ * (prog v₀).expect (fun σ => sigmaYApply S true σ) = ∑ σ, p σ * |sigmaYApply S false σ|)
+    ∧ (∑ v₀, p v₀ * (prog v₀).expect (fun σ => sigmaZApply true σ) = ∑ σ, p σ * |sigmaZApply false σ|) :=
+  ⟨Prog.expect_stationary p prog hinv _, Prog.expect_stationary p prog hinv _, Prog.expect_stationary p prog hinv _⟩
+
+/-- **(c) `absolute=True` on a stationary chain**: for `SigmaX`, `SigmaY`, `SigmaZ` constructed with `absolute=True` the
+per-sample value is `|value with absolute=False|` (`C08_real`, `C08_flag_absolute`), so after `k` sampler passes from a start
+drawn from the exact sampling distribution `p` the expected value is `Σ_σ p(σ)·|apply(σ)|` — the corollary of clause (i) of
+`C08_unbiased_stationary` / `_pos` / `_mixed` (any `f`) with `f = |apply|`, for the complex wavefunction, the positive
+wavefunction and the density matrix.  This is ALL the property states about `absolute=True`.  It is NOT `tr(ρ̂|O|)` in general:
+`|M_X| = 1` on one qubit (`X² = 1`), so `tr(ρ̂|X|) = 1` for every state, while for `ψ = (1, 2)` the samples give
+`1/5·2 + 4/5·1/2 = 4/5` (the `example` below).  (For the diagonal `SigmaZ` the two coincide; nothing is claimed either way.)
+The content beyond `C08_real` is by stationarity only (`Prog.expect_stationary` + `C08_born_stationary`). -/
+theorem C08_unbiased_absolute (am ph : RBM ℝ n hid) (qa qp : PRBM ℝ n hid a) (k : ℕ) :
+    let psiC : Cfg n → C ℝ := fun σ => Wave.psiCplx am ph (fun j => bit (σ j))
+    let psiP : Cfg n → C ℝ := fun σ => Wave.psiPos am (fun j => bit (σ j))
+    let SM := ImpState.mixed (rbmRho qa qp) (rbmProb qa)
+    let EC : (Cfg n → ℝ) → ℝ := fun f => ∑ v₀, bornPure psiC v₀ * (am.gibbsSteps k v₀).expect f
+    let EP : (Cfg n → ℝ) → ℝ := fun f => ∑ v₀, bornPure psiP v₀ * (am.gibbsSteps k v₀).expect f
+    let EM : (Cfg n → ℝ) → ℝ := fun f => ∑ v₀, bornMixed (rbmProb qa) v₀ * (qa.gibbsSteps k v₀).expect f
+    ((EC (fun σ => sigmaXApply (ImpState.pure psiC) true σ) = ∑ σ, bornPure psiC σ * |sigmaXApply (ImpState.pure psiC) false σ|)
+      ∧ (EC (fun σ => sigmaYApply (ImpState.pure psiC) true σ)
+          = ∑ σ, bornPure psiC σ * |sigmaYApply (ImpState.pure psiC) false σ|)
+      ∧ (EC (fun σ => sigmaZApply true σ) = ∑ σ, bornPure psiC σ * |sigmaZApply false σ|))
+    ∧ ((EP (fun σ => sigmaXApply (ImpState.pure psiP) true σ) = ∑ σ, bornPure psiP σ * |sigmaXApply (ImpState.pure psiP) false σ|)
+      ∧ (EP (fun σ => sigmaYApply (ImpState.pure psiP) true σ)
+          = ∑ σ, bornPure psiP σ * |sigmaYApply (ImpState.pure psiP) false σ|)
+      ∧ (EP (fun σ => sigmaZApply true σ) = ∑ σ, bornPure psiP σ * |sigmaZApply false σ|))
+    ∧ ((EM (fun σ => sigmaXApply SM true σ) = ∑ σ, bornMixed (rbmProb qa) σ * |sigmaXApply SM false σ|)
+      ∧ (EM (fun σ => sigmaYApply SM true σ) = ∑ σ, bornMixed (rbmProb qa) σ * |sigmaYApply SM false σ|)
+      ∧ (EM (fun σ => sigmaZApply true σ) = ∑ σ, bornMixed (rbmProb qa) σ * |sigmaZApply false σ|)) := by
+  intro psiC psiP SM EC EP EM
+  exact ⟨absolute_stationary _ _ (fun w => (C08_born_stationary am ph qa k w).1) _,
+    absolute_stationary _ _ (fun w => (C08_born_stationary am am qa k w).2.1) _,
+    absolute_stationary _ _ (fun w => (C08_born_stationary am ph qa k w).2.2.1) _⟩
+
+/-- `absolute=True` does NOT estimate `tr(ρ̂|O|)`: one qubit, `ψ = (ψ(0), ψ(1)) = (1, 2)` (nowhere zero, so `C08_represents_pure`
+applies), `SigmaX`: `|X| = 1`, `tr(ρ̂|X|) = 1`, but the exact average of the `absolute=True` values is `4/5`. -/
+example : let psi : Cfg 1 → C ℝ := fun σ => if σ 0 then (2, 0) else (1, 0)
+    (∀ σ, psi σ ≠ (0, 0))
+    ∧ ∑ σ, bornPure psi σ * |sigmaXApply (ImpState.pure psi) false σ| = 4 / 5 := by
+  intro psi
+  refine ⟨fun σ => by simp only [psi]; split <;> simp, ?_⟩
+  have hsum : ∀ g : Cfg 1 → ℝ, ∑ τ, g τ = g (fun _ => true) + g (fun _ => false) := by
+    intro g
+    rw [← (Equiv.funUnique (Fin 1) Bool).symm.sum_comp, Fintype.sum_bool]
+    rfl
+  simp only [hsum, bornPure]
+  simp [sigmaXApply, ImpState.pure, psi, C.sum, C.div, C.normSq, absIf, flipSpin, Fin.foldl_succ, C.add, C.zero, C.mul,
+    C.conj]
+  norm_num
+
+/-- non-vacuity of `C08_unbiased_absolute`: the concrete two-site complex state, 4 passes, `SigmaY(absolute=True)`. -/
+example : let am : RBM ℝ 2 3 := ⟨fun i j => (i.val : ℝ) - j.val + 0.5, fun j => if j = 0 then -1.5 else 2,
+      fun i => if i = 0 then 0.7 else -0.3⟩
+    let ph : RBM ℝ 2 3 := ⟨fun i j => 0.25 * (i.val : ℝ) + j.val, fun j => if j = 0 then 1 else -2,
+      fun i => if i = 0 then -0.4 else 0.9⟩
+    let psi : Cfg 2 → C ℝ := fun σ => Wave.psiCplx am ph (fun j => bit (σ j))
+    ∑ v₀, bornPure psi v₀ * (am.gibbsSteps 4 v₀).expect (fun σ => sigmaYApply (ImpState.pure psi) true σ)
+      = ∑ σ, bornPure psi σ * |sigmaYApply (ImpState.pure psi) false σ| :=
+  (C08_unbiased_absolute _ _ (⟨fun _ _ => 0, fun _ _ => 0, fun _ => 0, fun _ => 0, fun _ => 0⟩ : PRBM ℝ 2 3 0)
+    ⟨fun _ _ => 0, fun _ _ => 0, fun _ => 0, fun _ => 0, fun _ => 0⟩ 4).1.2.1
+
 end sampler
 
 /-! ### Constructor flags as the objects the caller passed -/
